@@ -8,6 +8,7 @@ export VERIF_REPO=$R GOFLAGS=-mod=mod GOPROXY=off GOSUMDB=off GOTOOLCHAIN=local
 [ "$R" != /repo ] && ./setup.sh >/dev/null
 for d in seeded/*/; do
   s=$(basename $d); id=$(python3 -c "import json;print(json.load(open('$d/meta.json'))['property'])")
+  if python3 -c "import json,sys;sys.exit(0 if json.load(open('$d/meta.json')).get('superseded') else 1)"; then echo "$s ($id): superseded (the code it patches was replaced by a fix)"; continue; fi
   git -C $R apply $PWD/$d/patch.diff || { echo "$s: patch does not apply"; continue; }
   ./check $id --tier ${1:-quick} > /tmp/seedrecheck.$$.log 2>&1; rc=$?
   git -C $R checkout -- .
